@@ -797,13 +797,28 @@ Definition b3_uri (user host : string) : a_addr :=
   AASip {| au_secure := false; au_user := Some (s2b user, None); au_host := s2b host; au_port := None;
            au_params := []; au_headers := [] |}.
 
+Lemma b3_agree_init : agree (js_init C01.ex_cfg) C01.ex_st.
+Proof.
+  split.
+  - intros li p Np. destruct li as [|li]; [|destruct li; discriminate Np].
+    assert (E : p = b3_p) by (injection Np as <-; reflexivity). subst p.
+    exists [s2b "10.0.0.2:5080"]. split; [reflexivity|].
+    assert (E1 : rr_backends (ps_rr b3_p) = [s2b "10.0.0.2:5080"]) by (vm_compute; reflexivity).
+    assert (E2 : ps_backends b3_p = [(s2b "10.0.0.2:5080", 0%nat)]) by (vm_compute; reflexivity).
+    split; [intros a; rewrite E1; tauto|]. split.
+    + intros a g I. rewrite E2 in I. destruct I as [I|[]]. injection I as <- _. left. reflexivity.
+    + intros _. vm_compute. reflexivity.
+  - intros id li ip port. split; [intros []|intros (cn & [] & _)].
+Qed.
+
 (* the bridge theorem instantiated on the case: what remains to check on a concrete request *)
 Lemma b3_bridge d :
   j_read d = Some (jin_of d) -> parse_message d = Ok (parsed d, []) ->
   route_domain_in (RS (parsed d)) -> to_domain (parsed d) -> ruri_domain (jin_of d) ->
   fits_datagram (write_message (step_would_send all_fixed C01.ex_cfg 1000 (branch_of 0) C01.ex_st 0 C01.ex_lc b3_p
                                   b3_src 5070%Z (parsed d))) = true ->
-  (forall ip port, option_map (j_choose C01.ex_cfg C01.ex_lc false) (j_request (jin_of d)) <> Some (HHop (JTcp ip port))) ->
+  (forall ip port, option_map (j_choose C01.ex_cfg C01.ex_lc false) (j_request (jin_of d)) <> Some (HHop (JTcp ip port))) \/
+  msg_count (b3_outs d) = 1%nat ->
   is_ok (b3_step d) = true ->
   judge_C03_event b3_pc (js_init C01.ex_cfg) (EvUdp 0 b3_src 5070%Z d)
     (map labelled (filter (visible (pc_udp_endpoints b3_pc)) (b3_outs d))) [] = 0%nat.
@@ -814,25 +829,16 @@ Proof.
   destruct Hrun as (s & Hrun). unfold b3_step in Hrun.
   refine (C03_judge_bridge_step b3_pc (js_init C01.ex_cfg) all_fixed 1000%Z (branch_of 0) C01.ex_st s (b3_outs d)
             0%nat C01.ex_lc b3_p b3_src 5070%Z d [] (jin_of d) (parsed d) []
-            eq_refl J P Dom DT DR _ _ _ eq_refl eq_refl _ eq_refl _ _ _ Hfit Hrun _).
+            eq_refl J P Dom DT DR _ _ _ eq_refl eq_refl b3_agree_init eq_refl _ _ _ Hfit Hrun _).
   - intros n ip A. discriminate A.
   - apply routes_ok_b_sound. vm_compute. reflexivity.
   - unfold C01.ex_lc. cbn [lc_udp]. lia.
-  - split.
-    + intros li p Np. destruct li as [|li]; [|destruct li; discriminate Np].
-      assert (E : p = b3_p) by (injection Np as <-; reflexivity). subst p.
-      exists [s2b "10.0.0.2:5080"]. split; [reflexivity|].
-      assert (E1 : rr_backends (ps_rr b3_p) = [s2b "10.0.0.2:5080"]) by (vm_compute; reflexivity).
-      assert (E2 : ps_backends b3_p = [(s2b "10.0.0.2:5080", 0%nat)]) by (vm_compute; reflexivity).
-      split; [intros a; rewrite E1; tauto|]. split.
-      * intros a g I. rewrite E2 in I. destruct I as [I|[]]. injection I as <- _. left. reflexivity.
-      * intros _. vm_compute. reflexivity.
-    + intros id li ip port. split; [intros []|intros (cn & [] & _)].
   - intros l E. injection E as <-. constructor; [|constructor].
     exists (s2b "10.0.0.2"), 5080%Z. split; [vm_compute; reflexivity|]. split; vm_compute; reflexivity.
   - intros ip port. exact (proj1 (C02.slots_ok_init C01.ex_cfg 0 C01.ex_lc ip port)).
   - exact (proj2 (C02.slots_ok_init C01.ex_cfg 0 C01.ex_lc [] 0%Z)).
-  - intros q ip port Q JC _. exfalso. apply (NT ip port). rewrite Q. cbn [option_map]. f_equal. exact JC.
+  - intros q ip port Q JC C0. destruct NT as [NT|C1]; [|rewrite C1 in C0; discriminate C0].
+    exfalso. apply (NT ip port). rewrite Q. cbn [option_map]. f_equal. exact JC.
 Qed.
 
 (* 1. Route: own entry, next hop 10.0.0.9:5070 (udp), one more entry *)
@@ -854,7 +860,7 @@ Proof.
     rewrite E in F. injection F as _ <- _. exists (b3_uri "bob" "elsewhere.example").
     split; [vm_compute; reflexivity|reflexivity].
   - vm_compute. reflexivity.
-  - intros ip port.
+  - left. intros ip port.
     assert (E : option_map (j_choose C01.ex_cfg C01.ex_lc false) (j_request (jin_of b13_req)) =
                 Some (HHop (JUdp (s2b "10.0.0.9") 5070%Z))) by (vm_compute; reflexivity).
     rewrite E. discriminate.
@@ -881,7 +887,7 @@ Proof.
     rewrite E in F. injection F as _ <- _. exists (b3_uri "bob" "example.com").
     split; [vm_compute; reflexivity|reflexivity].
   - vm_compute. reflexivity.
-  - intros ip port.
+  - left. intros ip port.
     assert (E : option_map (j_choose C01.ex_cfg C01.ex_lc false) (j_request (jin_of b3_req_svc)) = Some HBackend)
       by (vm_compute; reflexivity).
     rewrite E. discriminate.
@@ -1198,9 +1204,78 @@ Proof.
       * right. apply in_map_iff. exists cn. split; [reflexivity|exact Ic].
 Qed.
 
+(* ================================================================== G. a TCP next hop, and the bookkeeping after it *)
+(* 3. Route: own entry, then a next hop with transport=tcp at a peer that accepts connections: the proxy
+   dials and writes on the new connection; the judge accepts, and its bookkeeping after the event (one
+   connection, to 10.0.0.7:5080) agrees with the state of the model *)
+Definition b3_tcp_elem : a_relem :=
+  {| ar_na := {| an_display := [];
+                 an_addr := AASip {| au_secure := false; au_user := None; au_host := s2b "10.0.0.7"; au_port := Some 5080%Z;
+                                     au_params := [{| ap_key := s2b "transport"; ap_val := Some (s2b "tcp") |};
+                                                   {| ap_key := s2b "lr"; ap_val := None |}];
+                                     au_headers := [] |} |};
+     ar_params := [] |}.
+Definition b3_tcp_routes : list a_relem := [b13_elem "" "10.0.0.1" (Some 5060%Z); b3_tcp_elem].
+Definition b3_req_tcp : bytes :=
+  s2b "INVITE sip:bob@elsewhere.example SIP/2.0" ++ crlf ++
+  s2b "Route: <sip:10.0.0.1:5060;lr>,<sip:10.0.0.7:5080;transport=tcp;lr>" ++ crlf ++ C01.ex_common.
+Definition b3_state (d : bytes) : state := match b3_step d with Ok (s, _) => s | _ => C01.ex_st end.
+
+Example b3_tcp_accepted :
+  map (fun o => fst (labelled o)) (b3_outs b3_req_tcp) = [s2b "dial:10.0.0.7:5080"; s2b "conn:0"] /\
+  judge_C03_event b3_pc (js_init C01.ex_cfg) (EvUdp 0 b3_src 5070%Z b3_req_tcp)
+    (map labelled (filter (visible (pc_udp_endpoints b3_pc)) (b3_outs b3_req_tcp))) [] = 0%nat.
+Proof.
+  split; [vm_compute; reflexivity|]. apply b3_bridge.
+  - vm_compute. reflexivity.
+  - vm_compute. reflexivity.
+  - assert (E : RS (parsed b3_req_tcp) = [{| h_name := s2b "Route"; h_val := HRaw (rp_route b3_tcp_routes) |}])
+      by (vm_compute; reflexivity).
+    rewrite E. cbn [route_domain_in]. split; [|exact I]. exists b3_tcp_routes.
+    split; [discriminate|]. split; [vm_compute; reflexivity|]. split; [vm_compute; reflexivity|reflexivity].
+  - assert (E : get_header (s2b "To") (m_headers (parsed b3_req_tcp)) =
+                Some {| h_name := s2b "T"; h_val := HRaw (rp_fromto b3_to) |}) by (vm_compute; reflexivity).
+    unfold to_domain. rewrite E. exists b3_to. split; [vm_compute; reflexivity|reflexivity].
+  - intros meth u ver F.
+    assert (E : fields (jm_start (jin_of b3_req_tcp)) = [s2b "INVITE"; rp_addr (b3_uri "bob" "elsewhere.example"); s2b "SIP/2.0"])
+      by (vm_compute; reflexivity).
+    rewrite E in F. injection F as _ <- _. exists (b3_uri "bob" "elsewhere.example").
+    split; [vm_compute; reflexivity|reflexivity].
+  - vm_compute. reflexivity.
+  - right. vm_compute. reflexivity.
+  - vm_compute. reflexivity.
+Qed.
+
+Lemma dials_readable_fst outs :
+  Forall (fun d => match d with
+                   | DDial ip port c => (int_min <= port <= int_max)%Z /\ (Z.of_nat c <= int_max)%Z
+                   | _ => True end) (map fst outs) -> dials_readable outs.
+Proof. unfold dials_readable. rewrite Forall_map. intros H. exact H. Qed.
+
+Example b3_tcp_agree_after :
+  js_conns (js_step_c (js_init C01.ex_cfg) (EvUdp 0 b3_src 5070%Z b3_req_tcp)
+              (map labelled (filter (visible (pc_udp_endpoints b3_pc)) (b3_outs b3_req_tcp))) [])
+    = [(0%nat, (0%nat, s2b "10.0.0.7", 5080%Z))] /\
+  agree (js_step_c (js_init C01.ex_cfg) (EvUdp 0 b3_src 5070%Z b3_req_tcp)
+           (map labelled (filter (visible (pc_udp_endpoints b3_pc)) (b3_outs b3_req_tcp))) [])
+        (b3_state b3_req_tcp).
+Proof.
+  split; [vm_compute; reflexivity|].
+  assert (Hrun : b3_step b3_req_tcp = Ok (b3_state b3_req_tcp, b3_outs b3_req_tcp)).
+  { unfold b3_state, b3_outs. destruct (b3_step b3_req_tcp) as [[s o]| |] eqn:E;
+      [reflexivity|vm_compute in E; discriminate E|vm_compute in E; discriminate E]. }
+  apply (agree_step_udp b3_pc (js_init C01.ex_cfg) all_fixed 1000%Z (branch_of 0) C01.ex_st (b3_state b3_req_tcp)
+           (b3_outs b3_req_tcp) 0%nat b3_src 5070%Z b3_req_tcp b3_agree_init Hrun).
+  apply dials_readable_fst.
+  assert (E : map fst (b3_outs b3_req_tcp) = [DDial (s2b "10.0.0.7") 5080%Z 0%nat; DConn 0%nat]) by (vm_compute; reflexivity).
+  rewrite E. constructor; [unfold int_min, int_max; cbn [Z.of_nat]; lia|]. constructor; [exact I|constructor].
+Qed.
+
 Print Assumptions choose_agree.
 Print Assumptions C03_judge_bridge_udp.
 Print Assumptions C03_judge_bridge_step.
 Print Assumptions b3_route_accepted.
 Print Assumptions b3_backend_accepted.
 Print Assumptions agree_step_udp.
+Print Assumptions b3_tcp_accepted.
+Print Assumptions b3_tcp_agree_after.
